@@ -276,8 +276,9 @@ class Engine:
 
     # ------------------------------------------------------------------ mutation tracking for cut loops
     def note_mutation(self, obj):
+        ident = id(getattr(obj, "store", obj))
         for L in self.loop_stack:
-            if L.get("arbitrary") and obj.birth <= L["epoch"] and id(obj) not in L["havoc_ids"]:
+            if L.get("arbitrary") and obj.birth <= L["epoch"] and ident not in L["havoc_ids"]:
                 raise NeedHavoc(L["id"], obj)
 
     # ------------------------------------------------------------------ obligations
